@@ -505,7 +505,7 @@ func randomConnected(c *Ctx, n int) [][]int {
 
 func init() {
 	sections["gossip"] = func(c *Ctx) error {
-		c.Rep.Rule = "virtual networks of real gossip nodes: connected graphs on 2..4 nodes (quick: sampled; thorough: every labelled connected graph on <= 4 nodes with origin 0, i.e. every graph x origin up to relabelling) plus random graphs on 5..7 nodes, vertex and transaction items, random delivery orders with duplicated messages; adversarial runs inject messages with forged gossiper lists (garbage signatures, honest signatures taken from another item, entries naming an honest node signed by the adversary's key, the adversary's own entries, replayed genuine entries) and unauthentic payloads under the item's hash; non-trivial = distinct (nodes, edges, kind, adversary behaviour, outcome)"
+		c.Rep.Rule = "virtual networks of real gossip nodes: connected graphs on 2..4 nodes (quick: sampled; thorough: every labelled connected graph on <= 4 nodes with origin 0, i.e. every graph x origin up to relabelling) plus random graphs on 5..7 nodes, vertex and transaction items, random delivery orders with duplicated messages; adversarial runs inject messages with forged gossiper lists (garbage signatures, digests of the wrong length (0, 3, 31, 33, 64 bytes) with or without a signature, honest signatures taken from another item, entries naming an honest node signed by the adversary's key, the adversary's own entries, replayed genuine entries) and unauthentic payloads under the item's hash; non-trivial = distinct (nodes, edges, kind, adversary behaviour, outcome)"
 		type job struct {
 			adj    [][]int
 			origin int
@@ -532,11 +532,12 @@ func init() {
 					jobs = append(jobs, job{gs[c.Rnd.Intn(len(gs))], c.Rnd.Intn(n), k == 2, false})
 				}
 			}
-			for i := 0; i < 10; i++ {
+			for i := 0; i < 14; i++ {
 				n := 3 + c.Rnd.Intn(4)
 				jobs = append(jobs, job{randomConnected(c, n), c.Rnd.Intn(n), i%3 == 0, i%2 == 0})
 			}
 		}
+		injTotal := c.Rnd.Intn(6) // adversary behaviours rotate, so that every run exercises each of them
 		for ji, j := range jobs {
 			n := len(j.adj)
 			honest := make([]bool, n)
@@ -564,7 +565,7 @@ func init() {
 			for len(v.queue) > 0 && steps < 400 {
 				steps++
 				// adversary: once it has seen the item, it injects forged messages to its honest peers
-				if advNode >= 0 && injected < 3 && c.Rnd.Intn(3) == 0 {
+				if advNode >= 0 && injected < 3 && c.Rnd.Intn(2) == 0 {
 					injected++
 					var targets []int
 					for _, p := range j.adj[advNode] {
@@ -576,12 +577,46 @@ func init() {
 						dst := targets[c.Rnd.Intn(len(targets))]
 						adv := v.nodes[advNode].w
 						var gs []*pb.Gossiper
-						beh := []string{"garbage-sig-for-target", "honest-sig-from-other-item", "names-target-signed-by-adversary", "own-entry", "replayed-genuine"}[c.Rnd.Intn(5)]
+						beh := []string{"garbage-sig-for-target", "honest-sig-from-other-item", "names-target-signed-by-adversary", "own-entry", "replayed-genuine", "malformed-digest-for-target"}[injTotal%6]
+						injTotal++
+						c.Count("inject." + beh)
 						tgt := v.nodes[dst].w
 						switch beh {
 						case "garbage-sig-for-target":
 							d := sha256.Sum256(gossip.VerifGossiperMessage(tgt.Address(), v.item))
 							gs = append(gs, &pb.Gossiper{Address: tgt.Address(), Digest: d[:], Signature: fill(c, 64, false)})
+						case "malformed-digest-for-target":
+							// entries naming the target (and its other honest peers) whose digest is missing, short
+							// or long; signature by the adversary over the right message, garbage, or none
+							d, sg := recSigner{adv}.Sign(gossip.VerifGossiperMessage(tgt.Address(), v.item))
+							names := []string{tgt.Address()}
+							for _, p := range j.adj[dst] {
+								if honest[p] {
+									names = append(names, v.nodes[p].w.Address())
+								}
+							}
+							for k, a := range names {
+								var dg, sig []byte
+								switch (k + c.Rnd.Intn(5)) % 5 {
+								case 0:
+									dg = nil
+								case 1:
+									dg = d[:3]
+								case 2:
+									dg = d[:31]
+								case 3:
+									dg = append(append([]byte{}, d[:]...), 0)
+								case 4:
+									dg = append(append([]byte{}, d[:]...), d[:]...)
+								}
+								switch c.Rnd.Intn(3) {
+								case 0:
+									sig = sg
+								case 1:
+									sig = fill(c, 64, false)
+								}
+								gs = append(gs, &pb.Gossiper{Address: a, Digest: dg, Signature: sig})
+							}
 						case "honest-sig-from-other-item":
 							// genuine entries of the target and of its other peers, signed for the warm-up item
 							// (every node has verified them before)
@@ -759,6 +794,106 @@ func init() {
 			}
 			v.close()
 			c.Distinct(fmt.Sprintf("simultaneous-duplicates/trx=%v/max-forwards=%d", isTrx, worst))
+		}
+		// ---- catalogue of forged gossiper entries, each delivered to an honest node BEFORE the genuine copy:
+		// 0 origin, 1 adversary, 2 and 3 honest, 3 reachable only through 2. Whatever the forged list says
+		// (naming 2 itself, its peer 3, or both), 2 must take the item in and hand it on to 3.
+		for _, isTrx := range []bool{false, true} {
+			adj := [][]int{{1, 2}, {0, 2}, {0, 1, 3}, {2}}
+			v := newVnet(c, 4, adj, []bool{true, false, true, true}, isTrx)
+			v.silent = true
+			adv := v.nodes[1].w
+			var prev []*pb.Gossiper // genuine entries signed for the previous round's item
+			forms := []string{"right-digest-garbage-sig", "right-digest-adversary-sig", "no-digest-adversary-sig", "digest3-garbage-sig", "digest31-no-sig",
+				"digest33-adversary-sig", "digest64-garbage-sig", "zero-digest-no-sig", "genuine-entries-of-previous-item"}
+			names := [][]int{{2}, {3}, {2, 3}}
+			failed := false
+			for fi := 0; fi < len(forms) && !failed; fi++ {
+				for _, nm := range names {
+					v.queue = nil
+					v.originate(0)
+					var genuine *qmsg
+					for i := range v.queue {
+						if v.queue[i].dst == 2 {
+							genuine = &v.queue[i]
+						}
+					}
+					if genuine == nil {
+						v.close()
+						return fmt.Errorf("forged catalogue: origin did not gossip to node 2")
+					}
+					var gs, cur []*pb.Gossiper
+					if genuine.vrx != nil {
+						cur = genuine.vrx.Gossipers
+					} else {
+						cur = genuine.trx.Gossipers
+					}
+					for _, x := range nm {
+						a := v.nodes[x].w.Address()
+						d, sg := recSigner{adv}.Sign(gossip.VerifGossiperMessage(a, v.item))
+						e := &pb.Gossiper{Address: a}
+						switch forms[fi] {
+						case "right-digest-garbage-sig":
+							dd := sha256.Sum256(gossip.VerifGossiperMessage(a, v.item))
+							e.Digest, e.Signature = dd[:], fill(c, 64, false)
+						case "right-digest-adversary-sig":
+							e.Digest, e.Signature = d[:], sg
+						case "no-digest-adversary-sig":
+							e.Signature = sg
+						case "digest3-garbage-sig":
+							e.Digest, e.Signature = d[:3], fill(c, 64, false)
+						case "digest31-no-sig":
+							e.Digest = d[:31]
+						case "digest33-adversary-sig":
+							e.Digest, e.Signature = append(append([]byte{}, d[:]...), 7), sg
+						case "digest64-garbage-sig":
+							e.Digest, e.Signature = append(append([]byte{}, d[:]...), d[:]...), fill(c, 64, false)
+						case "zero-digest-no-sig":
+							e.Digest = make([]byte, 32)
+						case "genuine-entries-of-previous-item":
+							e = nil
+							for _, g := range prev {
+								if g.Address == a {
+									e = g
+								}
+							}
+						}
+						if e != nil {
+							gs = append(gs, e)
+						}
+					}
+					forged := qmsg{src: 1, dst: 2}
+					if genuine.vrx != nil {
+						forged.vrx = &pb.VrxMsgGossip{Vertex: proto.Clone(genuine.vrx.Vertex).(*pb.Vertex), Gossipers: gs}
+					} else {
+						forged.trx = &pb.TrxMsgGossip{Trx: proto.Clone(genuine.trx.Trx).(*pb.Transaction), Gossipers: gs}
+					}
+					v.queue = append([]qmsg{forged}, v.queue...)
+					prev = nil
+					for steps := 0; len(v.queue) > 0 && steps < 60; steps++ {
+						m := v.queue[0]
+						if m.src != 1 {
+							if m.vrx != nil {
+								prev = append(prev, m.vrx.Gossipers...)
+							} else {
+								prev = append(prev, m.trx.Gossipers...)
+							}
+						}
+						v.deliver(0)
+					}
+					_ = cur
+					c.Rep.Evals++
+					c.Count("forged-catalogue." + forms[fi])
+					c.Distinct(fmt.Sprintf("forged-catalogue/%s/%v/trx=%v", forms[fi], nm, isTrx))
+					if !v.hasItem(2) || !v.hasItem(3) {
+						c.Violate("C12", "forged-entry-suppressed-delivery", fmt.Sprintf("forged entries of the form %s naming nodes %v, delivered to honest node 2 before the genuine copy: node 2 holds the item: %v, node 3 (reachable only through 2): %v", forms[fi], nm, v.hasItem(2), v.hasItem(3)),
+							map[string]interface{}{"section": "gossip", "scenario": "forged-catalogue", "form": forms[fi], "names": nm, "trx": isTrx})
+						failed = true
+						break
+					}
+				}
+			}
+			v.close()
 		}
 		// ---- two items out of order: the child vertex reaches a relay before its parent
 		for rep := 0; rep < 2; rep++ {
